@@ -26,8 +26,10 @@ func solvencyCheck(x *engine.Exec, ref *rewRef) []engine.Failure {
 		}
 		for _, vs := range s.Vals {
 			for _, t := range vs.Tokens {
-				if t.Cmp(new(big.Rat).SetInt(new(big.Int).Exp(big.NewInt(10), big.NewInt(19), nil))) >= 0 {
-					return "index-rounded-up-at-1e19-tokens"
+				// the per-token index has 18 decimals and is rounded half-up: with >= 1e18 tokens on a validator one index update
+				// can over-credit by half a base unit or more
+				if t.Cmp(new(big.Rat).SetInt(new(big.Int).Exp(big.NewInt(10), big.NewInt(18), nil))) >= 0 {
+					return "index-resolution-at-1e18-tokens-or-more"
 				}
 			}
 		}
